@@ -132,7 +132,8 @@ InsStr(s, i, x) == Take(s, i) \o x \o Drop(s, i)
 BadUtf8 == {<<37,56,48>>, <<37,67,51>>, <<37,69,50,37,56,50>>, <<37,67,48,37,56,48>>, <<37,69,68,37,65,48,37,56,48>>,
             <<37,70,52,37,57,48,37,56,48,37,56,48>>,
             <<37,99,51>>, <<37,101,50,37,56,50>>, <<37,99,48,37,56,48>>, <<37,101,100,37,97,48,37,56,48>>, <<37,102,52,37,57,48,37,56,48,37,56,48>>}
-BadTypeChars == {<<33>>, <<32>>, <<95>>, <<37,52,49>>, <<233>>, <<64>>}
+BadTypeChars == {<<33>>, <<32>>, <<95>>, <<37,52,49>>, <<233>>, <<64>>, <<126>>, <<58>>, <<44>>, <<42>>}      \* ! space _ %41 e-acute @ ~ : , *
+BadKeyChars == {<<33>>, <<43>>, <<126>>, <<32>>, <<58>>, <<47>>, <<233>>, <<37,52,49>>, <<64>>, <<44>>}          \* ! + ~ space : / e-acute %41 @ ,
 \* Faults(T) : set of [s |-> string, err |-> generic error class, what |-> description]
 F(s, e, w) == [s |-> s, err |-> e, what |-> w]
 Faults(T) ==
@@ -174,6 +175,9 @@ Faults(T) ==
               F(Glue([p EXCEPT !.qs = p.qs \o <<AMP, 61, 118>>]), "InvalidQualifier", "empty key"),
               F(Glue([p EXCEPT !.qs = p.qs \o <<AMP, 37,52,49, 61, 118>>]), "InvalidQualifier", "escaped key"),
               F(Glue([p EXCEPT !.qs = p.qs \o <<AMP>> \o AUpperS(CanonOf(T).quals[1][1]) \o <<61, 119>>]), "InvalidQualifier", "key repeated in another case")})
+  \* an invalid character inside an otherwise valid key, at the front, in the middle, at the end
+  \cup {F(Glue([p EXCEPT !.qs = (IF hasQ THEN p.qs \o <<AMP>> ELSE <<QM>>) \o InsStr(<<120, 121>>, i, b) \o <<61, 118>>]),
+           "InvalidQualifier", "invalid character in key") : i \in 0..2, b \in BadKeyChars}
   \* qualifier faults when there are no qualifiers yet
   \cup (IF hasQ THEN {} ELSE
         {F(Glue([p EXCEPT !.qs = <<QM, 120>>]), "InvalidQualifier", "item without ="),
